@@ -63,14 +63,25 @@ ReadVal(ty, av, st) ==
 Read(ty, av) == ReadVal(ty, av, [scope |-> <<>>, missing |-> {}, ok |-> TRUE])
 
 -----------------------------------------------------------------------------
-(* Documents: every way of removing record fields from a value, recursively *)
+(* Documents: every way of removing record fields from a value, recursively.  A removed field is MARKED (its value   *)
+(* is NullV): StripNulls(doc) is the document with the field absent, the marked document is the one with the field null;   *)
+(* the property gives both the same meaning, so everything above is evaluated on StripNulls(doc).                          *)
+NullV == [t |-> "null"]
+RECURSIVE StripNulls(_)
+StripNulls(av) ==
+  CASE av.t = "rec" -> [t |-> "rec", v |-> LET kept == SelectSeq(av.v, LAMBDA e : e.v # NullV) IN [i \in DOMAIN kept |-> [k |-> kept[i].k, v |-> StripNulls(kept[i].v)]]]
+    [] av.t = "map" -> [t |-> "map", v |-> [i \in DOMAIN av.v |-> [k |-> av.v[i].k, v |-> StripNulls(av.v[i].v)]]]
+    [] av.t = "arr" -> [t |-> "arr", v |-> [i \in DOMAIN av.v |-> StripNulls(av.v[i])]]
+    [] av.t = "union" -> [t |-> "union", a |-> av.a, v |-> StripNulls(av.v)]
+    [] OTHER -> av
 RECURSIVE DocVariants(_, _), EntryChoices(_, _, _)
 \* all sequences obtained by dropping any subset of the record's entries and varying the kept ones
 EntryChoices(n, entries, i) ==
   IF i > Len(entries) THEN {<<>>}
   ELSE LET rest == EntryChoices(n, entries, i + 1)
            kept == {<<[k |-> entries[i].k, v |-> x]>> \o r : x \in DocVariants(FieldType(n, entries[i].k), entries[i].v), r \in rest}
-       IN kept \cup rest
+           nulled == {<<[k |-> entries[i].k, v |-> NullV]>> \o r : r \in rest}
+       IN kept \cup nulled
 RECURSIVE SeqProduct(_, _, _)
 SeqProduct(ety, items, i) ==
   IF i > Len(items) THEN {<<>>} ELSE {<<x>> \o r : x \in DocVariants(ety, items[i]), r \in SeqProduct(ety, items, i + 1)}
